@@ -54,8 +54,8 @@ CHECKS = {
              "carries it, unknown kid => invalid-key-id, no kid only for singleton sets' over ~83k scenarios and refutes five deviations. Each scenario runs "
              "on the real library (random picks repeated): the recorded kid must belong to a candidate TLC computed, the token must verify under refimpl with "
              "that key alone and under joserfc with the public key set; consume-side tokens are refimpl forgeries signed by a chosen member of the set. "
-             "Every key set is also imported and exported and compared member by member. PickTable.tla walks every row of the table behind the random pick (one row per JWS / JWE algorithm name) over histories of calls, one process per history.",
-        note="Trusted: TLC, refimpl, key pool. Quick tier runs a seeded quarter of the scenarios."),
+             "Every key set is also imported and exported and compared member by member. PickTable.tla walks every row of the table behind the random pick (one row per JWS / JWE algorithm name) over histories of calls, one process per history. KeySetHistory.tla makes the set mutable: histories of lookups by kid, kid-less picks, removals, in-place rotations and appends (invariants ResolvesCurrentSet, PicksFromCurrentSet; deviations MemoisedLookup, FirstKeyFallback, MemoisedPick refuted), every history replayed on one real KeySet object.",
+        note="Trusted: TLC, refimpl, key pool. Quick tier runs a seeded quarter of the scenarios, every key-set history with two picks and 2500 of the others."),
     "C01": dict(
         cat="model_checking", ref="DESIGN.md section 6 (C01)",
         technique="TLA+ Dolev-Yao model of JWS verification (Jws.tla): TLC explores all behaviours with <=2 attacker edits x entry point x key; behaviours concretised per algorithm with refimpl tokens and bit-level edits, replayed into joserfc",
